@@ -39,7 +39,7 @@ GIT_ENV = {
 }
 TAGS = ["v1", "1.0.0", "release/1.0", "v2"]
 BRANCHES = ["dev", "feature/x"]
-CLEANUP = ("remove", "prune", "branch-D")
+CLEANUP = ("remove", "prune", "forget", "branch-D")
 
 
 # ------------------------------------------------------------------------------------------------
@@ -109,6 +109,8 @@ def generate(rng, opts):
     state = {
         # the user may own a branch that is named like the temporary one of any reference
         "collide_branch": rng.choice([False] * 6 + ["v1", rng.choice(refs_pool)]) if (refs_pool := all_tags + all_branches + ["HEAD", "main", "@", "@"]) else False,
+        # ... or a *tag* named like the temporary branch of some reference (not a branch: nothing collides)
+        "collide_tag": rng.choice([False] * 7 + ["v1", rng.choice(all_tags + all_branches + ["HEAD", "main"])]),
         "detached": rng.random() < 0.2,
         # directory names are the user's choice: they may look like a (normalised) reference
         "repo_dirname": rng.choice(["repo", "repo", "repo", "main", "v1", "HEAD"]),
@@ -170,7 +172,7 @@ def generate(rng, opts):
             elif fk == "ext":
                 faults.append({"kind": "ext", "nth": rng.choice([0, 1, 2, 3, 5, 8, 13, 21, 40]), "how": rng.choice(["exception", "kbi", "systemexit"])})
             elif fk == "ext_write":
-                faults.append({"kind": "ext", "nth": rng.choice([0, 1, 3, 8]), "how": rng.choice(["write_file", "write_file", "detach_checkout", "chdir"])})
+                faults.append({"kind": "ext", "nth": rng.choice([0, 1, 3, 8]), "how": rng.choice(["write_file", "write_file", "detach_checkout", "chdir", "remove_checkout"])})
             else:
                 faults.append({"kind": "bytecode"})
         if r < 0.6:
@@ -260,6 +262,11 @@ def build_repo(root, world):
         ref = "v1" if st["collide_branch"] is True else st["collide_branch"]
         norm = _re.sub(r"[-\s]+", "-", _re.sub(r"[^\w]+", "-", ref)).strip("-")
         _git(repo, "branch", f"griffe-{norm}", "HEAD~1", check=False)
+    if st.get("collide_tag"):
+        import re as _re
+
+        norm = _re.sub(r"[-\s]+", "-", _re.sub(r"[^\w]+", "-", st["collide_tag"])).strip("-")
+        _git(repo, "tag", f"griffe-{norm}", "HEAD~1", check=False)
     if st["user_worktree"]:
         branches = [b for c in world["commits"] for b in c["branches"]]
         wt = os.path.join(root, "wts", st.get("user_worktree_dirname", "user-wt"))
@@ -371,6 +378,8 @@ class SubprocessShim:
             return "remove"
         if "worktree" in a and "prune" in a:
             return "prune"
+        if "--git-common-dir" in a:
+            return "forget"  # the look-up that precedes the targeted removal of the worktree's registration
         if "branch" in a and "-D" in a:
             return "branch-D"
         return "other"
@@ -516,6 +525,13 @@ def make_fault_extension(griffe, faults, ctx, counter, tmp_prefix):
                         # code run during loading changes the working directory and does not come back (an inspected
                         # module's import-time `os.chdir`, a sloppy extension): a relative `repo` now names nothing
                         os.chdir(os.path.dirname(tmp_prefix.rstrip(os.sep)))
+                    if f["how"] == "remove_checkout" and where is not None and str(where).startswith(tmp_prefix):
+                        # code run during loading (a clean-up script, a build step gone wrong) deletes the temporary
+                        # checkout altogether - only ever Griffe's checkout
+                        top = str(where)[len(tmp_prefix):].split(os.sep)
+                        if len(top) > 2 and top[0].startswith("griffe-worktree-"):
+                            shutil.rmtree(os.path.join(tmp_prefix, top[0], top[1]), ignore_errors=True)
+                            ctx.fault("checkout-removed")
                     if f["how"] == "detach_checkout" and where is not None and str(where).startswith(tmp_prefix):
                         # code run during loading (a build step, `git init`, a clean-up script) removes the link file
                         # that ties the temporary checkout to the repository - only ever inside Griffe's checkout
@@ -938,7 +954,7 @@ def shrink_candidates(plan):
             yield {**plan, "ops": ops[:i] + [{**op, "api": "check"}] + ops[i + 1 :]}
     world = plan["world"]
     st = world["state"]
-    for key, simple in (("collide_branch", False), ("detached", False), ("user_worktree", None), ("repo_dirname", "repo"), ("user_worktree_dirname", "user-wt"), ("work_in_linked_worktree", False), ("tmp_symlinked", False), ("post_checkout_hook", None), ("remote_tracking", False), ("auto_setup_merge", None), ("hook_env", None), ("submodule", False), ("locale", None), ("tmp_in_repo", False)):
+    for key, simple in (("collide_branch", False), ("detached", False), ("user_worktree", None), ("repo_dirname", "repo"), ("user_worktree_dirname", "user-wt"), ("work_in_linked_worktree", False), ("tmp_symlinked", False), ("post_checkout_hook", None), ("remote_tracking", False), ("auto_setup_merge", None), ("hook_env", None), ("submodule", False), ("locale", None), ("tmp_in_repo", False), ("collide_tag", False)):
         if st.get(key, simple) != simple:
             yield {**plan, "world": {**world, "state": {**st, key: simple}}}
     for red in core.list_reductions(st["dirty"]):
@@ -982,7 +998,7 @@ class _Prop:
         "extension raising Exception / KeyboardInterrupt / SystemExit at its n-th hook call or writing files into "
         "the checkout, bytecode caching by inspected imports. Full repository snapshot equality and empty temp dir "
         "after every operation; usability of returned objects after success. Non-trivial = every run; distinct = "
-        "distinct (operation/outcome/fault trace, layout, dirty state, worktree state). Also drawn: Git shorthand refs (@, @^), $TMPDIR behind a symlink, a post-checkout hook (succeeding or failing), user-chosen directory names for the repository and the linked worktree (incl. names that look like normalised refs), operating from a linked worktree, a user branch colliding with the temporary name of any ref, repository argument as absolute / . / relative / Path, a public package that re-exports from a private sibling package of the same checkout; after success aliases into the checkout must be usable and a changed parameter list of the public function must be reported by check. Round r: one interruption or transient spawn failure inside the clean-up commands, an extension changing the working directory, $TMPDIR inside the repository, translated git messages, a user branch named `griffe-`. Round j/k: remote-tracking refs and branch.autoSetupMerge; the git child killed half-way through `worktree add` (branch created, worktree registered and still locked 'initializing', index locked, directory partly populated)."
+        "distinct (operation/outcome/fault trace, layout, dirty state, worktree state). Also drawn: Git shorthand refs (@, @^), $TMPDIR behind a symlink, a post-checkout hook (succeeding or failing), user-chosen directory names for the repository and the linked worktree (incl. names that look like normalised refs), operating from a linked worktree, a user branch colliding with the temporary name of any ref, repository argument as absolute / . / relative / Path, a public package that re-exports from a private sibling package of the same checkout; after success aliases into the checkout must be usable and a changed parameter list of the public function must be reported by check. Round s: a user tag named like the temporary branch, the checkout deleted while in use. Round r: one interruption or transient spawn failure inside the clean-up commands, an extension changing the working directory, $TMPDIR inside the repository, translated git messages, a user branch named `griffe-`. Round j/k: remote-tracking refs and branch.autoSetupMerge; the git child killed half-way through `worktree add` (branch created, worktree registered and still locked 'initializing', index locked, directory partly populated)."
     )
     COMPONENTS = {
         "real": ["_griffe.git (tmp_worktree, assert_git_repo, get_latest_tag, get_repo_root)", "_griffe.loader.load_git", "_griffe.cli.check / main", "_griffe.diff", "git 2.39 binary", "real repository and checkout on tmpfs"],
